@@ -90,8 +90,20 @@ func (H) Generate(r *simrt.Rand, tier string) any {
 		// keys are legal in this multiset tree and the sequence number keeps the
 		// shape recoverable from the traversals
 		keys := 1 + r.Intn(6)
+		withRemovals := r.Intn(2) == 0
+		var in []int
 		for i := 0; i < n; i++ {
-			s.Ops = append(s.Ops, Op{"add", (1+r.Intn(keys))*1000 + i%1000})
+			v := (1+r.Intn(keys))*1000 + i%1000
+			s.Ops = append(s.Ops, Op{"add", v})
+			in = append(in, v)
+			if withRemovals && r.Intn(3) == 0 {
+				// removing one of several elements that compare equal: whether the tree
+				// finds it is not C02's business (the comparator is not consistent with
+				// ==), that it stays balanced whatever it does is
+				j := r.Intn(len(in))
+				s.Ops = append(s.Ops, Op{"remove", in[j]})
+				in = append(in[:j], in[j+1:]...)
+			}
 		}
 		return s
 	case "ascending":
@@ -235,6 +247,12 @@ func (H) Execute(scAny any, cfg simrt.Config, st *core.Stats) (*simrt.Outcome, *
 					continue
 				}
 				if !tree.Remove(o.V) {
+					if dupKeys {
+						// equal-comparing but distinct elements: the statement's comparator
+						// assumption does not hold, a Remove that does not find its element
+						// has changed nothing and the tree is checked as it is
+						break
+					}
 					v = &core.Violation{Signature: "remove-failed", Detail: fmt.Sprintf("op %d: Remove(%d) returned false for a present value", i, o.V)}
 					return
 				}
@@ -304,7 +322,9 @@ func (H) Execute(scAny any, cfg simrt.Config, st *core.Stats) (*simrt.Outcome, *
 				v = &core.Violation{Signature: "depth-bound", Detail: fmt.Sprintf("after op %d %s: n=%d, deepest element at level %d > 1.4405*log2(n+2)=%.2f", i, o, size, depth, bound)}
 				return
 			}
-			if o.K != "clone" && float64(used) > 3*bound+8 {
+			// (not for removals among equal-comparing elements: looking for the one
+			// that is == may legitimately walk the whole run of them)
+			if o.K != "clone" && !(dupKeys && o.K == "remove") && float64(used) > 3*bound+8 {
 				v = &core.Violation{Signature: "comparisons-bound", Detail: fmt.Sprintf("op %d %s on n=%d needed %d comparator calls (> 3*%.2f+8)", i, o, size, used, bound)}
 				return
 			}
